@@ -58,11 +58,11 @@ Record fixes := mkFx {
   fx_lone : bool;      (* setAttr of *Rect / *Group keeps own attributes            (7a67899) *)
   fx_gridn : bool;     (* gridnFunc rejects unit <= 0 before calling the platform   (292a02f) *)
   fx_gridn_bound : bool; (* gridnFunc rejects units below minGridUnit (and NaN); Gridn counts
-                            rounds with an integer, at most maxGridRounds + 1       (finding) *)
+                            rounds with an integer, at most maxGridRounds + 1       (e0d2614) *)
   fx_text : bool;      (* text filled with the fill colour and not stroked          (finding) *)
   fx_baseline : bool;  (* Font keeps the mapped baseline name                       (finding) *)
   fx_family : bool }.  (* the root element carries the default font family          (finding) *)
-Definition cur : fixes := mkFx false true true false false false false.    (* /repo HEAD *)
+Definition cur : fixes := mkFx false true true true false false false.    (* /repo HEAD *)
 Definition none : fixes := mkFx false false false false false false false. (* before the fix commits *)
 Definition all : fixes := mkFx true true true true true true true.        (* with every proposed fix *)
 
